@@ -85,8 +85,19 @@ def run(rep, ctx):
         bad = [p for (p, r, dm, lm, ex) in out if not ex[0][0]][0]
         rep.violation('the parser returned a tree that violates wf_parser (the hypothesis of no_panic)',
                       {'kind': 'S', 'input': bad['src'], 'theorem': 'no_panic'})
+    hung = {}
+    for p, r, dm, lm, ex in out:
+        if isinstance(r, dict) and r.get('hang'):
+            hung[p['src']] = r['hang']
     for p, pan, pan_rel in S[:3]:
         found = True
+        if p['src'] in hung:
+            # no shrinking: every candidate would cost the harness' per-file time limit
+            rep.violation('the analysis of a parseable file does not terminate (no result within the time limit of the harness; '
+                          'detector running: %s)' % hung[p['src']],
+                          {'kind': 'S', 'input': p['src'], 'original_gen': p['gen'], 'hanging_detector': hung[p['src']],
+                           'n_failing_programs': len(S)})
+            continue
 
         def still(cands, names=tuple(pan + pan_rel)):
             ps2 = vlib.ProgSet([{'gen': 'shrink', 'src': c} for c in cands], 'shrink').ensure(ctx.harness)
